@@ -219,14 +219,14 @@ var c13Ctxs = []string{"protected", "unprotected", "sign1", "untagged", "signatu
 // forEachSingleParamCell enumerates the single-parameter header cells: label x
 // value kind x bucket x context (x every fitting Go spelling of the label when
 // spellings is set).
-func forEachSingleParamCell(spellings bool, run func(c c13Case)) {
+func forEachSingleParamCell(spellings bool, run func(c c13Case), extra ...namedVal) {
 	for _, ctx := range c13Ctxs {
 		for _, bucket := range []string{"P", "U"} {
 			if (ctx == "protected" && bucket == "U") || (ctx == "unprotected" && bucket == "P") {
 				continue
 			}
 			for _, l := range c13Labels {
-				for _, nv := range c13Values() {
+				for _, nv := range append(c13Values(), extra...) {
 					v := nv.v
 					if nv.name == "array-self" {
 						v = rc.Array(l)
